@@ -524,6 +524,89 @@ def c15(tier):
     return v.finish()
 
 
+# ------------------------------------------------------------------------------------------ C03 / C04
+
+CODEC_CFG = """SPECIFICATION Spec
+CONSTANTS
+ Mode = "%s"
+ ParseAlpha = {0, 1, 2, 3, 4, 5, 32, 48, 50, 52, 64, 97, 98, 128, 130, 144, 162, 192, 255}
+ ParseMaxLen = %d
+INVARIANTS SelfConsistent Emit
+"""
+
+
+def codec_cases(v):
+    r = core.cached_tlc("codec-cases", "Codec", CODEC_CFG % ("cases", 0), workers=1, timeout=900)
+    v.tlc("Codec(cases)", r)
+    cases = core.behaviours(r.lines)
+    if len(cases) < 1000:
+        raise Infra("Codec: only %d cases" % len(cases))
+    return cases
+
+
+def account(v, res, label, extra=None):
+    v.cov["parts"][label] = dict({"inputs": res.get("evaluations", 0), "checks": res.get("steps", 0),
+                                  "mismatching": res.get("nmismatch", 0)}, **(extra or {}))
+    v.cov["evaluations"] += res.get("evaluations", 0)
+    v.cov["traces_validated_against_impl"] += res.get("evaluations", 0)
+    v.mismatches(res.get("mismatches"), res.get("counts"))
+    v.add_samples(res.get("samples") or [], 2)
+
+
+@check("C03")
+def c03(tier):
+    v = Verdict("C03", tier)
+    cases = codec_cases(v)
+    by = {}
+    for c in cases:
+        by[c["case"]["ty"]] = by.get(c["case"]["ty"], 0) + 1
+    res = core.merge(core.run_sharded(["codec"], cases, timeout=900))
+    account(v, res, "reference-cases", {"cases_by_type": by})
+    v.cov["distinct_nontrivial"] += len(cases)
+    # history of the process-wide packet-id counter, in one fresh process
+    n = 131073 if tier != "thorough" else 300000
+    p = core.run_harness(["codecids", "-n", str(n)], timeout=600)
+    if p.returncode != 0:
+        raise Infra("codecids failed: %s" % p.stderr[-2000:])
+    res2 = json.loads(p.stdout.strip().splitlines()[-1])
+    account(v, res2, "automatic-packet-ids")
+    r = core.cached_tlc("packetid", "PacketId", "SPECIFICATION Spec\nCONSTANTS N = 131073\nINVARIANTS IdNonZero\n", workers=1, timeout=600)
+    v.tlc("PacketId", r)
+    v.cov["rule"] = ("every case of the Codec specification (product of boundary classes: string/payload lengths 0/1/127/128/16383/16384/65535, "
+                     "remaining lengths on both sides of every varint boundary, 1..9 filters, all flag combinations, ids 1/255/256/65535) is built "
+                     "through the public setters and compared with the reference wire form: Len, Encode bytes, Decode length and fields, re-encode, "
+                     "decode with trailing bytes; plus %d consecutive automatically numbered encodes. distinct_nontrivial = cases" % n)
+    v.cov["exhaustive"] = True
+    v.assumptions += ["exhaustive over classes of field values, not over all values; bulk content is expanded from seeds by the harness",
+                      "the reference codec is a transcription of MQTT 3.1.1 into TLA+ (self-consistency checked by TLC: Parse inverts Wire)"]
+    return v.finish()
+
+
+@check("C04")
+def c04(tier):
+    v = Verdict("C04", tier)
+    thorough = tier == "thorough"
+    cases = codec_cases(v)
+    r = core.cached_tlc("codec-parse", "Codec", CODEC_CFG % ("parse", 4), workers=1, timeout=900)
+    v.tlc("Codec(parse)", r)
+    strs = core.behaviours(r.lines)
+    res = core.merge(core.run_sharded(["decodeparse"], strs, timeout=900))
+    account(v, res, "short-strings", {"strings": len(strs), "wellformed": sum(1 for x in strs if x["p"]["ok"]),
+                                      "lenient_accepts": res.get("counts", {}).get("lenient_accepts", 0)})
+    v.cov["distinct_nontrivial"] += len(strs)
+    res2 = core.merge(core.run_sharded(["decodemut", "-seed", str(core.seed()), "-random", "20000" if not thorough else "400000"], cases, timeout=1500))
+    account(v, res2, "mutations-and-random", {"lenient_accepts": res2.get("counts", {}).get("lenient_accepts", 0)})
+    v.cov["distinct_nontrivial"] += res2.get("steps", 0)
+    v.cov["rule"] = ("all byte strings of length <= 4 over a 19-byte structure alphabet judged by the total reference parser (Codec!Parse) and fed to all "
+                     "14 decoders; truncations at/next to every segment boundary and edits of every structure byte of every reference case; seeded "
+                     "random byte strings; every input in a slice with cap = len inside a canary array, under recover. A panic, n > len, a field "
+                     "outside the decoded packet or a well-formed packet rejected/misread is a violation. distinct_nontrivial = strings + decode calls on mutations")
+    v.cov["exhaustive"] = False
+    v.assumptions += ["totality over all byte strings is approximated by structured and random inputs",
+                      "leniencies (malformed input accepted) are counted, not reported: the property allows 'a message or an error'"]
+    return v.finish()
+
+
 # ------------------------------------------------------------------------------------------ misc
 
 def setup():
